@@ -23,4 +23,21 @@ def famC02x : List Item :=
     let ds := fewRegs (enumEnc f en)
     items {} ds ++ items { num := .dec } ds
 
+/-- C05 (round 12): displacements written with MORE digits than a 64-bit number needs — `-0x0000000000000080` (19 characters),
+    24 hexadecimal digits — under no keyword, `short` and `long`; a literal's value does not depend on how many leading zeros it has -/
+def famC05x : List Item :=
+  let f : Fill := { mems := noMems, imms := fewImm, rels8 := [-128, -5, 5, 127, 128, -129], rels32 := [-129, 128, -0x1000, 0x200, 0x7fffffff, -0x7fffffff, -5, 5] }
+  (table.filter hasRel).flatMap fun en =>
+    let ds := enumEnc f en
+    [NumStyle.hexPad 16, NumStyle.hexPad 17, NumStyle.hexPad 24].flatMap fun ns =>
+      items { num := ns } ds ++ items { num := ns, relKw := "short " } ds ++ items { num := ns, relKw := "long " } ds
+
+/-- C03 (round 12): immediates written with more digits than a 64-bit number needs (17 and 24 hexadecimal digits, with and without sign) -/
+def famC03x : List Item :=
+  (table.filter fun en => hasImm en).flatMap fun en =>
+    let f : Fill := { mems := memsFew, imms := fun b => ([1, 0x12, 0x7f, 0x80, 2 ^ b - 1, 2 ^ b - 0x80].filter (· < 2 ^ b)).eraseDups, rels8 := [], rels32 := [],
+                      regForm := true, memForm := true }
+    let ds := fewRegs (enumEnc f en)
+    items { num := .hexPad 17 } ds ++ items { num := .hexPad 24, negImm := false } ds
+
 end AL.Spec.X86
